@@ -152,7 +152,5 @@ META = {
               'values; classes emerge from the forks), both parser modes, with ground-state pruning and a concrete probe '
               'afterwards; shaped families going deeper: CSI bodies after ESC [ / U+009B / parameters / ? / $, digit runs '
               'of 4, 20 and 25+ digits, OSC bodies after both introducers, ESC ( ) % #',
-    'outside': 'sequences longer than the bound that are not in a shaped family; OSC strings whose code is R, P or p '
-               '(Linux palette sequences: the statement does not fix their extent) and OSC strings whose code is not '
-               'followed by `;`; the generator crate\'s yield/send semantics are trusted',
+    'outside': 'sequences longer than the bound that are not in a shaped family; OSC strings whose code is not followed by `;` (OSC R / OSC P return to ground right after the code); the generator crate\'s yield/send semantics are trusted',
 }
